@@ -637,3 +637,87 @@ pub fn gen_name_shape_sets() -> Vec<Vec<TableDef>> {
     }
     out
 }
+
+// ------------------------------------------------------------------ systematic FK-chain shapes (C16 / K-exp)
+fn chain_table(name: &str, cols: &[&str]) -> TableDef {
+    let mut t = base_table(name.to_string());
+    for c in cols {
+        t.columns.push(col(c, int(), true));
+    }
+    t
+}
+fn add_fk1(t: &mut TableDef, c: &str, rt: &str, rc: &str) {
+    t.constraints.push(TableConstraint::ForeignKey { name: None, columns: vec![c.into()], ref_table: rt.into(), ref_columns: vec![rc.into()], on_delete: None, on_update: None });
+}
+
+/// Single-column FK chains of every shape the chain walk of the SeaORM exporter can meet: a head table whose FK
+/// points at a tail of `tail` (0..=3) FK columns that leads into a cycle of `cycle` (0..=3; 0 = the chain just ends
+/// at a key) FK columns — acyclic chains, pure cycles entered on the cycle, and rho shapes (tail INTO a cycle the
+/// first referenced column is not part of).  Each shape in two table orders, plus the same shapes folded into
+/// one table (columns of one table referencing each other) and chains through key columns.  Deterministic.
+pub fn gen_fk_chain_sets() -> Vec<Vec<TableDef>> {
+    let mut out: Vec<Vec<TableDef>> = vec![];
+    for tail in 0..=3usize {
+        for cycle in 0..=3usize {
+            // nodes: t1..t<tail> then c1..c<cycle>; every node is column `k` of its own table
+            let mut names: Vec<String> = (1..=tail).map(|i| format!("t{}", i)).collect();
+            names.extend((1..=cycle).map(|i| format!("c{}", i)));
+            let mut ts: Vec<TableDef> = names.iter().map(|n| chain_table(n, &["k"])).collect();
+            ts.push(base_table("base".into()));
+            let n = names.len();
+            for i in 0..n {
+                // every node points at the next one; the last node closes the cycle at its entry, or ends at a key
+                let (rt, rc) = if i + 1 < n {
+                    (names[i + 1].clone(), "k".to_string())
+                } else if cycle > 0 {
+                    (names[tail].clone(), "k".to_string())
+                } else {
+                    ("base".to_string(), "id".to_string())
+                };
+                add_fk1(&mut ts[i], "k", &rt, &rc);
+            }
+            let mut head = chain_table("head", &["ref"]);
+            let first = if n > 0 { (names[0].clone(), "k".to_string()) } else { ("base".to_string(), "id".to_string()) };
+            add_fk1(&mut head, "ref", &first.0, &first.1);
+            ts.insert(0, head);
+            let mut rev = ts.clone();
+            rev.reverse();
+            out.push(ts);
+            out.push(rev);
+        }
+    }
+    // the same shapes inside ONE table: columns x1..x<tail> then y1..y<cycle> reference each other
+    for (tail, cycle) in [(1usize, 1usize), (1, 2), (2, 1), (3, 3), (2, 0)] {
+        let mut cols: Vec<String> = (1..=tail).map(|i| format!("x{}", i)).collect();
+        cols.extend((1..=cycle).map(|i| format!("y{}", i)));
+        let refs: Vec<&str> = cols.iter().map(|c| c.as_str()).collect();
+        let mut a = chain_table("node", &refs);
+        for i in 0..cols.len() {
+            if i + 1 < cols.len() {
+                let nxt = cols[i + 1].clone();
+                add_fk1(&mut a, &cols[i], "node", &nxt);
+            } else if cycle > 0 {
+                let entry = cols[tail].clone();
+                add_fk1(&mut a, &cols[i], "node", &entry);
+            } else {
+                add_fk1(&mut a, &cols[i], "node", "id");
+            }
+        }
+        let mut head = chain_table("head", &["ref"]);
+        add_fk1(&mut head, "ref", "node", &cols[0]);
+        out.push(vec![head, a]);
+    }
+    // chains through KEY columns (the key itself is a foreign key), tail into a key cycle
+    {
+        let mut session = chain_table("session", &["account_ref"]);
+        add_fk1(&mut session, "account_ref", "account", "user_ref");
+        let mut account = chain_table("account", &["user_ref"]);
+        add_fk1(&mut account, "user_ref", "user", "id");
+        let mut user = base_table("user".into());
+        add_fk1(&mut user, "id", "profile", "user_id");
+        let mut profile = chain_table("profile", &["user_id"]);
+        add_fk1(&mut profile, "user_id", "user", "id");
+        out.push(vec![session, account, user, profile]);
+    }
+    out.into_iter().filter_map(|m| normalized_slice(&m).filter(|n| gener::loader_accepts(n))).collect()
+}
